@@ -50,6 +50,16 @@ fn visit(v: &Visit, st: &mut Stats) -> CaseResult {
         _ => "checkers>=2",
     });
     st.class_if(p != 0, "pinned-nonempty");
+    {
+        // how many of the previous mover's sliders stand on lines through the mover's king
+        let k = v.pos.king_sq(v.pos.stm).unwrap();
+        let n = (0..64u8)
+            .filter(|&s| matches!(v.pos.board[s as usize], Some((kd, c)) if c != v.pos.stm && matches!(kd, Kind::R | Kind::B | Kind::Q)
+                && ((matches!(kd, Kind::R | Kind::Q) && (file_of(s) == file_of(k) || rank_of(s) == rank_of(k))) || (matches!(kd, Kind::B | Kind::Q) && (file_of(s) - file_of(k)).abs() == (rank_of(s) - rank_of(k)).abs()))))
+            .count();
+        st.class_if(n >= 9, "nine-or-more-aligned-sliders");
+        st.class_if(n >= 9 && c != 0, "nine-or-more-aligned-sliders-and-check");
+    }
     let own: u64 = (0..64).filter(|&s| matches!(v.pos.board[s], Some((_, c)) if c == v.pos.stm)).fold(0, |m, s| m | 1u64 << s);
     st.class_if(p & !own != 0, "enemy-piece-on-pin-line");
     st.class_if(!v.hist.is_empty(), "reached-by-history");
@@ -183,7 +193,7 @@ pub fn run(ctx: &Ctx) -> Report {
     rep.assumptions = vec!["reference attackers()/pinned_mask() implement the wording of C03".into()];
     rep.required_classes = vec![
         "checkers=1", "checkers>=2", "pinned-nonempty", "enemy-piece-on-pin-line", "after-null-move", "discovered-check", "check-by-castling",
-        "check-after-en-passant", "discovered-check-by-en-passant", "check-by-knight-promotion", "check-after-slider-promotion", "transposition-pair",
+        "check-after-en-passant", "discovered-check-by-en-passant", "nine-or-more-aligned-sliders-and-check", "check-by-knight-promotion", "check-after-slider-promotion", "transposition-pair",
     ];
     let cases = ctx.tier.scale(120_000, 25);
     // keep track of the previous position to classify how a check arose
